@@ -429,6 +429,88 @@ func c13statsd(c *an.Ctx) {
 			c.Anchor("nsqd." + spec.typ + "." + spec.name)
 			continue
 		}
+		// the lookup behind a helper (`lastTopic := findTopicStats(last.Topics, topic.TopicName)`): every element the
+		// helper returns is returned where the names are known to be equal
+		an.Instrs(fn, func(in ssa.Instruction) {
+			st, ok := in.(*ssa.Store)
+			if !ok || !types.Identical(st.Val.Type(), nt) {
+				return
+			}
+			call, ok := st.Val.(*ssa.Call)
+			if !ok {
+				return
+			}
+			h := an.StaticCallee(call)
+			if h == nil || h.Pkg != fn.Pkg || h.Blocks == nil {
+				return
+			}
+			for _, r := range an.Returns(h) {
+				if len(r.Results) == 0 || !types.Identical(r.Results[0].Type(), nt) {
+					continue
+				}
+				if sliceElemLoad(r.Results[0]) == nil {
+					continue // the zero value of "not found"
+				}
+				n++
+				good := false
+				for _, cmp := range an.CmpsAt(r.Block()) {
+					if cmp.Op != token.EQL {
+						continue
+					}
+					fx, _ := an.LoadedField(an.Strip(cmp.X))
+					fy, _ := an.LoadedField(an.Strip(cmp.Y))
+					if fx == nameF || fy == nameF {
+						good = true
+					}
+				}
+				c.Check(good, fn, "previous "+spec.typ+" matched by name", r.Pos(), "", an.FnName(h)+" returns an element of the previous collection where its "+spec.name+" is not known to equal the name looked for: the statsd deltas of one "+spec.typ+" are computed against another's counters")
+			}
+		})
+		// the found element merged with the "not found" zero value before it reaches the base cell (a result variable of an
+		// inlined lookup): each element operand arrives over an edge on which the names are known to be equal
+		an.Instrs(fn, func(in ssa.Instruction) {
+			st, ok := in.(*ssa.Store)
+			if !ok || !types.Identical(st.Val.Type(), nt) {
+				return
+			}
+			phi, ok := st.Val.(*ssa.Phi)
+			if !ok {
+				return
+			}
+			al, ok := st.Addr.(*ssa.Alloc)
+			if !ok || !cellIsDeltaBase(al) {
+				return
+			}
+			isName := func(v ssa.Value) bool {
+				if f, _ := an.LoadedField(an.Strip(v)); f == nameF {
+					return true
+				}
+				for _, o := range originsOrNone(v) {
+					if f, _ := an.LoadedField(an.Strip(o)); f == nameF {
+						return true
+					}
+				}
+				return false
+			}
+			for i, e := range phi.Edges {
+				if sliceElemLoad(e) == nil {
+					continue
+				}
+				n++
+				good := false
+				// the facts that hold where the operand was produced and on the way into the merge
+				cmps := append(an.CmpsAt(phi.Block().Preds[i]), an.CmpsOnEdge(an.Edge{From: phi.Block().Preds[i], To: phi.Block()})...)
+				if ld, ok := e.(ssa.Instruction); ok {
+					cmps = append(cmps, an.CmpsAt(ld.Block())...)
+				}
+				for _, cmp := range cmps {
+					if cmp.Op == token.EQL && isName(cmp.X) && isName(cmp.Y) {
+						good = true
+					}
+				}
+				c.Check(good, fn, "previous "+spec.typ+" matched by name", st.Pos(), "", "a "+spec.typ+" of the previous collection reaches the base of the statsd deltas over a path on which its "+spec.name+" is not known to equal the current one's")
+			}
+		})
 		an.Instrs(fn, func(in ssa.Instruction) {
 			st, ok := in.(*ssa.Store)
 			if !ok || !types.Identical(st.Val.Type(), nt) {
@@ -490,18 +572,49 @@ func c13statsd(c *an.Ctx) {
 					}
 				}
 			}
+			directElem := false
+			if u, ok := st.Val.(*ssa.UnOp); ok {
+				_, directElem = u.X.(*ssa.IndexAddr)
+			}
+			if !isBase && !directElem {
+				// … or a result cell that is copied whole into such a base (`lastTopic := found`); the range variable's own
+				// cell (filled straight from the slice on every iteration) is not one
+				for _, r := range an.Referrers(al) {
+					ld, ok := r.(*ssa.UnOp)
+					if !ok || ld.Op != token.MUL {
+						continue
+					}
+					for _, r2 := range an.Referrers(ld) {
+						if s2, ok := r2.(*ssa.Store); ok && s2.Val == ssa.Value(ld) {
+							if al2, ok := s2.Addr.(*ssa.Alloc); ok && cellIsDeltaBase(al2) {
+								isBase = true
+							}
+						}
+					}
+				}
+			}
 			if !isBase {
 				return
 			}
 			n++
 			good := false
+			isName := func(v ssa.Value) bool {
+				if f, _ := an.LoadedField(an.Strip(v)); f == nameF {
+					return true
+				}
+				// the name looked for, held in a local
+				for _, o := range originsOrNone(v) {
+					if f, _ := an.LoadedField(an.Strip(o)); f == nameF {
+						return true
+					}
+				}
+				return false
+			}
 			for _, cmp := range an.CmpsAt(st.Block()) {
 				if cmp.Op != token.EQL {
 					continue
 				}
-				fx, _ := an.LoadedField(an.Strip(cmp.X))
-				fy, _ := an.LoadedField(an.Strip(cmp.Y))
-				if fx == nameF && fy == nameF {
+				if isName(cmp.X) && isName(cmp.Y) {
 					good = true
 				}
 			}
@@ -713,18 +826,83 @@ func c18mode(c *an.Ctx) {
 			return false
 		}
 		good := true
-		for _, ci := range an.CallsTo(fn, lk) {
+		static := func(target *ssa.Function) []ssa.CallInstruction {
+			var out []ssa.CallInstruction
+			for _, ci := range an.CallsTo(fn, target) {
+				if an.StaticCallee(ci) == target {
+					out = append(out, ci)
+				}
+			}
+			return out
+		}
+		for _, ci := range static(lk) {
 			if !nonEmpty(an.CmpsAt(ci.Block())) {
 				good = false
 			}
 		}
-		for _, ci := range an.CallsTo(fn, dr) {
+		for _, ci := range static(dr) {
 			if !empty(an.CmpsAt(ci.Block())) {
 				good = false
 			}
 		}
-		if len(an.CallsTo(fn, lk)) == 0 || len(an.CallsTo(fn, dr)) == 0 {
+		if len(static(lk)) == 0 || len(static(dr)) == 0 {
 			good = false
+			// the mode chosen as a method value (`fetch := c.direct; if len(lookupd) != 0 { fetch = c.lookupd }; fetch(…)`):
+			// at the call, the value selected on the path is the lookupd method only past a non-empty test, the direct one
+			// only past an empty test
+			var dyn []ssa.CallInstruction
+			for _, ci := range an.CallsIn(fn, func(ci ssa.CallInstruction) bool {
+				if ci.Common().IsInvoke() || an.StaticCallee(ci) != nil {
+					return false
+				}
+				hasLk, hasDr := false, false
+				for _, o := range originsOrNone(ci.Common().Value) {
+					if mc, ok := an.Strip(o).(*ssa.MakeClosure); ok {
+						if f, ok := mc.Fn.(*ssa.Function); ok {
+							switch an.BoundMethod(f) {
+							case lk:
+								hasLk = true
+							case dr:
+								hasDr = true
+							}
+						}
+					}
+				}
+				return hasLk && hasDr
+			}) {
+				dyn = append(dyn, ci)
+			}
+			if len(dyn) > 0 {
+				good = true
+				for _, dc := range dyn {
+					for _, side := range []struct {
+						target *ssa.Function
+						ok     func([]an.Cmp) bool
+					}{{lk, nonEmpty}, {dr, empty}} {
+						side := side
+						q := &an.PathQ{Fn: fn, StartEntry: true, AllAlias: true, FullOnly: true,
+							Sink: func(in ssa.Instruction, ps *an.PathState) bool {
+								if in != dc.(ssa.Instruction) {
+									return false
+								}
+								v := dc.Common().Value
+								if sel := ps.Selected(v); sel != nil {
+									v = sel
+								}
+								mc, ok := an.Strip(v).(*ssa.MakeClosure)
+								if !ok {
+									return true // not resolved on this path: undecided counts against
+								}
+								f, _ := mc.Fn.(*ssa.Function)
+								return f != nil && an.BoundMethod(f) == side.target
+							},
+							CutEdge: func(e an.Edge, ps *an.PathState) bool { return side.ok(ps.CmpsOnEdge(e)) }}
+						if _, found := q.Find(); found {
+							good = false
+						}
+					}
+				}
+			}
 		}
 		c.Check(good, fn, "lookupd mode iff lookupd addresses are configured", fn.Pos(), "", "the choice between lookupd and direct-nsqd mode is not `len(lookupdHTTPAddrs) != 0` (as everywhere else): after PUT /config/nsqlookupd_http_addresses on an nsqadmin started in direct mode the topic and channel views sum only the static nsqd list while /api/topics and /api/nodes show the whole cluster")
 	}
@@ -766,4 +944,56 @@ func c20pertopic(c *an.Ctx) {
 	if n == 0 {
 		c.Anchor("a store to apps/nsq_to_nsq.TopicHandler.destinationTopic")
 	}
+}
+
+// sliceElemLoad: v is a load of a slice element (s[i]), possibly through the range variable's cell.
+func sliceElemLoad(v ssa.Value) *ssa.IndexAddr {
+	for i := 0; i < 4; i++ {
+		u, ok := v.(*ssa.UnOp)
+		if !ok || u.Op != token.MUL {
+			return nil
+		}
+		if ia, ok := u.X.(*ssa.IndexAddr); ok {
+			return ia
+		}
+		al, ok := u.X.(*ssa.Alloc)
+		if !ok {
+			return nil
+		}
+		var sv ssa.Value
+		cnt := 0
+		for _, r := range an.Referrers(al) {
+			if s2, ok := r.(*ssa.Store); ok && s2.Addr == ssa.Value(al) {
+				sv = s2.Val
+				cnt++
+			}
+		}
+		if cnt != 1 {
+			return nil
+		}
+		v = sv
+	}
+	return nil
+}
+
+// cellIsDeltaBase: some field of the local struct cell is the subtrahend of a difference (`cur.X - cell.X`).
+func cellIsDeltaBase(al *ssa.Alloc) bool {
+	for _, r := range an.Referrers(al) {
+		fa, ok := r.(*ssa.FieldAddr)
+		if !ok {
+			continue
+		}
+		for _, r2 := range an.Referrers(fa) {
+			ld, ok := r2.(*ssa.UnOp)
+			if !ok {
+				continue
+			}
+			for _, r3 := range an.Referrers(ld) {
+				if b, ok := r3.(*ssa.BinOp); ok && b.Op == token.SUB && b.Y == ssa.Value(ld) {
+					return true
+				}
+			}
+		}
+	}
+	return false
 }
